@@ -123,6 +123,22 @@ func runC02(c *core.Ctx, idx int) {
 					}
 				}
 				c.Cover("scanner", scanner)
+				if si == 0 && fi == 0 {
+					// a caller pages through everything with the parsed empty filter (skip / limit set on the parsed query);
+					// the next caller who asks with the empty filter gets everything, not that page
+					if pq, perr := ast.Parse(st.Store, ""); perr == nil {
+						pq.SetSkip(1)
+						pq.SetLimit(1)
+						page, _, err := st.Store.QueryIdsC(tx, pq)
+						all, count, err2 := st.Store.QueryIds(tx, "")
+						c.Eval()
+						c.Cover("path", "empty filter after a paged empty filter")
+						wantAll, _ := env.w.Page(qx.Things, match, &qx.Query{})
+						if err != nil || err2 != nil || !sameIds(all, wantAll) || count != int64(len(wantAll)) || len(page) > 1 {
+							c.Violationf("C02 the empty filter answers with another caller's page", map[string]any{"world": describeWorld(env.w)}, "paged empty filter returned %q (err %v); the empty filter afterwards returned %q count %d (err %v), oracle %q", page, err, all, count, err2, wantAll)
+						}
+					}
+				}
 				nullKeys, ties := false, false
 				seen := map[string]bool{}
 				for _, f := range sortSpec {
